@@ -144,6 +144,27 @@ def _snapview(case, ctx):
     with ctx.watch(case, 300):
         q = QCow2(fh)
         views = [q, q.snapshots[0].open()]
+        # first the two views alternately (they share the handle and the table cache), then each on its own
+        fh.reset_meter()
+        asked = 0
+        for k in range(n * 2):
+            for vi, v in enumerate(views):
+                off = ((k * 2 + vi) * 7919 * 4096) % (n * cs - 4096)
+                v.seek(off)
+                got = v.read(4096)
+                asked += 4096
+                ctx.transitions += 1
+                ctx.states += 1
+                if got != models[vi].content(off, 4096):
+                    ctx.violation(case, {"subject": "qcow2.snapshot-view.read", "kind": "mismatch", "view": vi, "alternating": True},
+                                  {"offset": off})
+                    return
+        bound = 2 * img.meta_bytes + 4 * (asked + n * 4 * 2 * buf) + 65536
+        ctx.maxi("snapview_alternating_cost_over_bound_permille", int(1000 * fh.bytes_requested / bound))
+        if fh.bytes_requested > bound:
+            ctx.violation(case, {"subject": "qcow2.snapshot-view.io", "kind": "io-bound-exceeded", "view": "alternating"},
+                          {"read_bytes": fh.bytes_requested, "bound": bound, "asked": asked, "cluster_size": cs})
+            return
         costs = []
         for vi, v in enumerate(views):
             fh.reset_meter()
@@ -391,6 +412,7 @@ def run_case(case, ctx):
                               {"exception": repr(e)[:300]})
                 return
             open_bytes = fh.bytes_requested
+            total_cost, total_allow = 0, 0
             if stream.size != size:
                 ctx.violation(case, {"subject": f"{fmt}.size", "kind": "mismatch"}, {"got": stream.size, "expected": size})
                 return
@@ -423,6 +445,14 @@ def run_case(case, ctx):
                     return
                 cost = fh.bytes_requested
                 bound = 2 * M + 4 * (n + 2 * buf) + 65536
+                # all requests on this object together: the metadata is paid for once (twice at most), not once per request
+                total_cost += cost
+                total_allow += 4 * (n + 2 * buf) + 65536
+                if open_bytes + total_cost > 2 * M + total_allow:
+                    ctx.violation(case, {"subject": f"{fmt}.io", "kind": "io-bound-exceeded", "request": "all-requests-together"},
+                                  {"open_bytes": open_bytes, "read_bytes_so_far": total_cost, "bound": 2 * M + total_allow,
+                                   "metadata_bytes": M, "after_request": name})
+                    return
                 ctx.maxi(f"cost_over_bound_permille.{fmt}", int(1000 * (open_bytes + cost) / bound))
                 if open_bytes + cost > bound:
                     ctx.violation(case, {"subject": f"{fmt}.io", "kind": "io-bound-exceeded", "request": name},
